@@ -143,6 +143,7 @@ pub struct W {
     pub lifo: bool,
     pub script: Script,
     pub n_create: usize,
+    pub n_detach_in_get: usize,
     pub n_recycle: usize,
     pub n_post_create: Vec<usize>,
     pub n_pre_recycle: Vec<usize>,
@@ -576,6 +577,7 @@ impl World {
                 lifo: cfg.lifo,
                 script: script.clone(),
                 n_create: 0,
+                n_detach_in_get: 0,
                 n_recycle: 0,
                 n_post_create: vec![0; cfg.post_create.len()],
                 n_pre_recycle: vec![0; cfg.pre_recycle.len()],
@@ -824,8 +826,24 @@ impl Manager for Mgr {
     }
 
     fn detach(&self, obj: &mut Obj) {
-        self.world.w().on_detach(obj.id);
+        let blow = {
+            let mut w = self.world.w();
+            w.on_detach(obj.id);
+            let in_get = w.op_kind(vcore::sched::current_op()) == OpKind::Get;
+            if in_get {
+                let k = w.n_detach_in_get;
+                w.n_detach_in_get += 1;
+                // never while the thread is already unwinding: that would abort the process
+                w.script.detach_panic_at == Some(k as u8) && !std::thread::panicking()
+            } else {
+                false
+            }
+        };
         self.world.cb_point("cb.detach");
+        if blow {
+            self.world.w().labels.push("detach:injected-panic".into());
+            std::panic::panic_any(vcore::sched::Injected);
+        }
     }
 }
 
